@@ -11,6 +11,7 @@ mod ops_c08;
 mod ops_av1;
 mod ops_cli;
 mod ops_capi;
+mod ops_pq;
 
 pub use util::*;
 
@@ -22,6 +23,7 @@ fn dispatch(parts: &[&str]) -> String {
     match parts[0] {
         "esc" | "unesc" | "hesc" | "hunesc" | "escdigest" | "nalwrite" => ops_c13::run(parts),
         op if op.starts_with("av1.") => ops_av1::run(parts),
+        op if op.starts_with("pq.") => ops_pq::run(parts),
         op if op.starts_with("cli.") => ops_cli::run(parts),
         op if op.starts_with("c08.") => ops_c08::run(parts),
         op if op.starts_with("capi.") || op == "rpu.ops3" => ops_capi::run(parts),
